@@ -73,6 +73,12 @@ def sqlite_can_alter(ops, a, b):
         k = o["k"]
         if k in ("add_table", "remove_table", "add_index", "remove_index"):
             continue
+        if k == "remove_column":
+            # ALTER TABLE DROP COLUMN (SQLite >= 3.35) for a column no key / index / constraint / generated column uses
+            c = find_col(a, o["t"], o["c"])
+            if c and not c.get("pk") and not c.get("computed") and not G.col_in_use(a, o["t"], o["c"]):
+                continue
+            return False
         if k == "add_column":
             c = find_col(b, o["t"], o["c"])
             if c and not c.get("pk") and not (c.get("default") and c["default"]["kind"] == "func") and (c["nullable"] or (c.get("default") and c["default"]["kind"] == "str")) and \
@@ -210,7 +216,7 @@ def run_pair(ctx, a, b, ct, cd, batch, pending, compare_model=True):
     """quiet + correspondence + converge for one (A, B, settings).  Returns a summary string."""
     inp = {"a": a, "b": b, "ct": ct, "cd": cd, "batch": batch}
     flags = sorted(G.schema_flags(a) | G.schema_flags(b))
-    if "default-func" in flags:
+    if "default-func" in flags or "computed-nullable-unset" in flags:
         compare_model = False  # SQL function defaults are judged by the implementation-side oracle only
     in_class = not flags and pair_wf(a, b)
     mda, mdb = S.build_metadata(a), S.build_metadata(b)
@@ -224,8 +230,18 @@ def run_pair(ctx, a, b, ct, cd, batch, pending, compare_model=True):
         ctx.evaluation()
         # (ii) quiet
         try:
-            _, _, ops_q = S.produce(conn, mda, ct, cd, batch)
+            mq, _, ops_q = S.produce(conn, mda, ct, cd, batch)
             pending.append(("quiet", inp, ops_q, None))
+            if batch and ct and cd:
+                # the public entry point must report the same thing as produce_migrations().upgrade_ops.as_diffs()
+                import warnings as _w
+                from alembic.autogenerate import compare_metadata
+
+                with _w.catch_warnings():
+                    _w.simplefilter("ignore")
+                    via_cm = S.canon_diffs(mq, compare_metadata(mq, mda))
+                if via_cm != ops_q:
+                    ctx.disagree("compare_metadata", inp, via_cm, ops_q, "compare_metadata differs from produce_migrations")
             # (i) correspondence of the diff
             mctx, script, ops = S.produce(conn, mdb, ct, cd, batch)
         except Exception as e:
@@ -240,17 +256,28 @@ def run_pair(ctx, a, b, ct, cd, batch, pending, compare_model=True):
             ctx.hist("pair.opkind", k)
         ctx.hist("pair.nops", min(len(ops), 12))
         if not batch and not sqlite_can_alter(ops, a, b):
-            ctx.hist("pair.outcome", "nonbatch-not-alterable")
-            return "skip"
+            # SQLite cannot ALTER some of these ops: the non-batch upgrade must refuse (NotImplementedError / a
+            # database error), not silently skip work; if it does run through, it is judged like any other upgrade
+            try:
+                src = S.exec_upgrade(conn, mctx, script)
+            except Exception as e:
+                ctx.hist("pair.outcome", "nonbatch-refused:%s" % type(e).__name__)
+                return "skip"
+            refused = False
+        else:
+            refused = None
         # (iii) converge: execute the rendered upgrade, diff again
         try:
-            src = S.exec_upgrade(conn, mctx, script)
+            if refused is None:
+                src = S.exec_upgrade(conn, mctx, script)
         except Exception as e:
             if pair_wf(a, b):
                 extra = []
                 acols = {t["name"]: {c["name"] for c in t["cols"]} for t in a["tables"]}
                 if any(t["name"] in acols and not (acols[t["name"]] & {c["name"] for c in t["cols"]}) for t in b["tables"]):
                     extra.append("table-without-common-column")
+                if any(ix.get("desc") for t in b["tables"] for ix in t["ixs"]):
+                    extra.append("index-desc")
                 ctx.fail(inp, "upgrade-error: the rendered upgrade does not run (%s: %s)" % (type(e).__name__, str(e)[:300]),
                          impl={"ops": ops}, tags=["batch:%s" % batch, "exc:%s" % type(e).__name__] + extra + flags)
             else:
